@@ -636,7 +636,8 @@ def run(ctx):
     if "ObjRefines" not in r1c.violated:
         raise MachineryError("self-test failed: ObjRefines not violated by the deviating object")
     r1d = ctx.tlc("HistMC.tla", what="self-test: object that caches the [min,max] selection violates ObjRefines",
-                  cfg_text=cfg(constants=dict(small, FixedSel=False, MaxLen=1, HLens={2}, HDepth=3, HThin=1, ScaleNs=set()),
+                  cfg_text=cfg(constants=dict(small, FixedSel=False, MaxLen=1, HLens={2}, HDepth=3, HThin=1, ScaleNs=set(),
+                                           HBinSizes={1}, HNBins=set(), HNPer={1}),
                                invariants=["ObjRefines"]),
                   workers=4, allow_violation=True, coverage=False)
     if "ObjRefines" not in r1d.violated:
